@@ -126,6 +126,7 @@ static std::vector<Op> buildAlphabet(const std::string& name, Limits& L, const s
         A.push_back(opFrame("ok", "app", 0, L)); A.push_back(opFrame("ok", "app", 2, L)); A.push_back(opFrame("ok", "0", 1, L));
         A.push_back(opFrame("ok", "n+1", 0, L)); A.push_back(opFrame("addpoints", "0", 1, L)); A.push_back(opFrame("addanalogs", "0", 1, L));
         A.push_back(opColPoint("ok", 1, L)); A.push_back(opColAnalog("ok", 1, L));
+        A.push_back(opParamMandatoryBad("POINT", "DATA_START", "int3")); A.push_back(opParamMandatoryBad("POINT", "DATA_START", "float"));   // the one parameter the writer patches: an array or another type cannot be written
         A.push_back(opBigObject(33, 17, 129)); A.push_back(opBigObject(65, 0, 17)); A.push_back(opBigObject(0, 33, 33)); A.push_back(opBigObject(50, 1, 130)); A.push_back(opBigObject(40, 3, 120)); A.push_back(opBulkPoints(17));   // (analog samples per frame = 34, 33, 2, 6: every residue of the fill level modulo 4 at the 64 KiB mark)   // counts beyond the shape guards (and more than 64 KiB of data), reached by repeating one call
         A.push_back(opParamCopyOfStored("NEWG", "X", "NEWG", "XR")); A.push_back(opParamCopyOfStored("NEWG", "X", "G2", "X")); A.push_back(opParam("lower_case_grp", "the_quick_brown_fox_jumps_over_a_lazy_dog_0189", pv("i7"), "d1", false, L));   // a stored parameter copied out, renamed and added again; every lower-case letter in a name
         A.push_back(opSubmitStored(0, "n", L)); A.push_back(opSubmitStored(0, "n+1", L)); A.push_back(opSubmitStored(0, "app", L));   // a stored frame handed back (append / past the end), then columns and a save
@@ -162,7 +163,7 @@ static std::vector<Op> buildAlphabet(const std::string& name, Limits& L, const s
         for (auto d : {"ok", "ok2", "fewer", "more", "none", "nocol", "sub_fewer", "sub_more", "dup", "dup2", "ragged"}) A.push_back(opColAnalog(d, 0, L));
         A.push_back(opParamBad("NEWB", true, false)); A.push_back(opParamBad("POINT", false, true));
         A.push_back(opParamMandatoryBad("POINT", "RATE", "int")); A.push_back(opParamMandatoryBad("ANALOG", "USED", "string")); A.push_back(opParamMandatoryBad("POINT", "LABELS", "int")); A.push_back(opParamMandatoryBad("ANALOG", "RATE", "empty-float"));
-        A.push_back(opParamMandatoryBad("ANALOG", "SCALE", "empty-int")); A.push_back(opParamMandatoryBad("ANALOG", "UNITS", "empty-int")); A.push_back(opParamMandatoryBad("POINT", "LABELS", "empty-float")); A.push_back(opParamMandatoryBad("ANALOG", "OFFSET", "empty-float"));   // empty AND of the wrong type
+        A.push_back(opParamMandatoryBad("POINT", "DATA_START", "int3")); A.push_back(opParamMandatoryBad("ANALOG", "SCALE", "empty-int")); A.push_back(opParamMandatoryBad("ANALOG", "UNITS", "empty-int")); A.push_back(opParamMandatoryBad("POINT", "LABELS", "empty-float")); A.push_back(opParamMandatoryBad("ANALOG", "OFFSET", "empty-float"));   // empty AND of the wrong type
         A.push_back(opLock("NOPE", true));
         A.push_back(opReload());
     } else if (name == "smoke") {
